@@ -423,6 +423,10 @@ def _r5(ctx, m):
 
 T = FILE
 MUTANTS = [
+    {"name": "helper-function-removes-from-the-shared-factor-list", "edits": [
+        {"file": T, "old": '    def _prepare_ode_content(\n', "new": '    @staticmethod\n    def _minus_one(symbols, sym):\n        rest = symbols\n        rest.remove(sym)\n        return rest\n\n    def _prepare_ode_content(\n'},
+        {"file": T, "old": '            for specidx in rspecidx:\n                # df/dx, remove the dependency for current reactant\n                for ri in rspecidx:\n                    rsymcopy = rsym.copy()\n                    rsymcopy.remove(y[ri])\n                    term = f" - {\'*\'.join([f\'{rate_sym}[{rl}]\', *rsymcopy])}"\n                    jacrhs[specidx * n_eqns + ri] += term\n            for specidx in pspecidx:\n                for ri in rspecidx:\n                    rsymcopy = rsym.copy()\n                    rsymcopy.remove(y[ri])\n                    term = f" + {\'*\'.join([f\'{rate_sym}[{rl}]\', *rsymcopy])}"\n                    jacrhs[specidx * n_eqns + ri] += term\n',
+         "new": '            dprods = ["*".join([f"{rate_sym}[{rl}]", *self._minus_one(rsym, y[ri])]) for ri in rspecidx]\n            for sign, affected in (("-", rspecidx), ("+", pspecidx)):\n                for specidx in affected:\n                    for ri, dprod in zip(rspecidx, dprods):\n                        jacrhs[specidx * n_eqns + ri] += f" {sign} {dprod}"\n'}], "rules": ["R1"]},
     {"name": 'nnz-length-taken-before-scan', "file": T, "old": '        nnz = 0\n\n        for row in range(n_eqns):\n            spjacrptr.append(nnz)\n            for col in range(n_eqns):\n                elem = jacrhs[row * n_eqns + col]\n                if elem != "0.0":\n                    spjaccval.append(col)\n                    spjacdata.append(f"{elem}")\n                    nnz += 1\n        spjacrptr.append(nnz)\n',
      "new": '        nnz = len(spjacdata)\n        for row in range(n_eqns):\n            spjacrptr.append(len(spjacdata))\n            for col, elem in enumerate(jacrhs[row * n_eqns : (row + 1) * n_eqns]):\n                if elem == "0.0":\n                    continue\n                spjaccval.append(col)\n                spjacdata.append(elem)\n        spjacrptr.append(len(spjacdata))\n', "rules": ['R5']},
     {"name": "sparse-matrix-declared-csc", "file": "naunet/templates/cvode/src/naunet.cpp.j2", "old": "SUNSparseMatrix(NEQUATIONS, NEQUATIONS, NNZ, CSR_MAT, cv_sunctx_)", "new": "SUNSparseMatrix(NEQUATIONS, NEQUATIONS, NNZ, CSC_MAT, cv_sunctx_)", "count": 2, "rules": ["R9"]},
@@ -451,6 +455,12 @@ MUTANTS = [
     {"name": "skip-catalyst-jac", "file": T, "old": "            for specidx in pspecidx:\n                for ri in rspecidx:\n                    rsymcopy = rsym.copy()", "new": "            for specidx in pspecidx:\n                if specidx in rspecidx:\n                    continue\n                for ri in rspecidx:\n                    rsymcopy = rsym.copy()", "rules": ["R1"]},
 ]
 BENIGN = [
+    {"name": "derivative-terms-precomputed-per-reactant", "file": T, "old": '            for specidx in rspecidx:\n                # df/dx, remove the dependency for current reactant\n                for ri in rspecidx:\n                    rsymcopy = rsym.copy()\n                    rsymcopy.remove(y[ri])\n                    term = f" - {\'*\'.join([f\'{rate_sym}[{rl}]\', *rsymcopy])}"\n                    jacrhs[specidx * n_eqns + ri] += term\n            for specidx in pspecidx:\n                for ri in rspecidx:\n                    rsymcopy = rsym.copy()\n                    rsymcopy.remove(y[ri])\n                    term = f" + {\'*\'.join([f\'{rate_sym}[{rl}]\', *rsymcopy])}"\n                    jacrhs[specidx * n_eqns + ri] += term\n',
+     "new": '            dterms = []\n            for ri in rspecidx:\n                rsymcopy = rsym.copy()\n                rsymcopy.remove(y[ri])\n                dterms.append((ri, "*".join([f"{rate_sym}[{rl}]", *rsymcopy])))\n            for specidx in rspecidx:\n                for ri, dterm in dterms:\n                    jacrhs[specidx * n_eqns + ri] += f" - {dterm}"\n            for specidx in pspecidx:\n                for ri, dterm in dterms:\n                    jacrhs[specidx * n_eqns + ri] += f" + {dterm}"\n'},
+    {"name": "derivative-terms-by-helper-function-and-zip", "edits": [
+        {"file": T, "old": '    def _prepare_ode_content(\n', "new": '    @staticmethod\n    def _minus_one(symbols, sym):\n        rest = symbols.copy()\n        rest.remove(sym)\n        return rest\n\n    def _prepare_ode_content(\n'},
+        {"file": T, "old": '            for specidx in rspecidx:\n                # df/dx, remove the dependency for current reactant\n                for ri in rspecidx:\n                    rsymcopy = rsym.copy()\n                    rsymcopy.remove(y[ri])\n                    term = f" - {\'*\'.join([f\'{rate_sym}[{rl}]\', *rsymcopy])}"\n                    jacrhs[specidx * n_eqns + ri] += term\n            for specidx in pspecidx:\n                for ri in rspecidx:\n                    rsymcopy = rsym.copy()\n                    rsymcopy.remove(y[ri])\n                    term = f" + {\'*\'.join([f\'{rate_sym}[{rl}]\', *rsymcopy])}"\n                    jacrhs[specidx * n_eqns + ri] += term\n',
+         "new": '            dprods = ["*".join([f"{rate_sym}[{rl}]", *self._minus_one(rsym, y[ri])]) for ri in rspecidx]\n            for sign, affected in (("-", rspecidx), ("+", pspecidx)):\n                for specidx in affected:\n                    for ri, dprod in zip(rspecidx, dprods):\n                        jacrhs[specidx * n_eqns + ri] += f" {sign} {dprod}"\n'}]},
     {"name": "modifier-term-by-list-concatenation", "file": T, "old": "term = f\" + {'*'.join([f'({fact})', *depsymcopy])}\"", "new": "term = \" + \" + \"*\".join([f\"({fact})\"] + depsymcopy)"},
     {"name": "csr-rowslice-enumerate-count-by-len", "file": T, "old": '        nnz = 0\n\n        for row in range(n_eqns):\n            spjacrptr.append(nnz)\n            for col in range(n_eqns):\n                elem = jacrhs[row * n_eqns + col]\n                if elem != "0.0":\n                    spjaccval.append(col)\n                    spjacdata.append(f"{elem}")\n                    nnz += 1\n        spjacrptr.append(nnz)\n',
      "new": '        for row in range(n_eqns):\n            spjacrptr.append(len(spjacdata))\n            for col, elem in enumerate(jacrhs[row * n_eqns + 0 : (row + 1) * n_eqns]):\n                if elem == "0.0":\n                    continue\n                spjaccval.append(col)\n                spjacdata.append(elem)\n        nnz = len(spjacdata)\n        spjacrptr.append(nnz)\n'},
